@@ -52,7 +52,7 @@ def ob_wig_summary(ctx, res):
     res.ok(g["nodes"][0], "summary: items += 1; bases += len; min/max folded with val; sum += len*val; sumsq += len*val*val (len = end-start, val = value)")
     # seeds: Summary literals in the two create() fns; destroy() zeroes min/max only when nothing was seen
     for impl in ("BigWigFullProcess", "BigWigNoZoomsProcess"):
-        cr = ctx.ast.fn(WW, "create", impl=impl)
+        cr = ctx.ast.fn(WW, "create", impl=impl, inline=True)
         lits = S.summary_literals(cr.body)
         if len(lits) != 1:
             res.fail("wigSummary/%s/seed" % impl, cr, "expected one Summary seed literal")
